@@ -57,6 +57,6 @@ def one(sid):
 
 if __name__ == "__main__":
     ids = sys.argv[1:] or sorted(os.listdir(os.path.join(ROOT, "seeded")))
-    with cf.ThreadPoolExecutor(max_workers=2) as ex:
+    with cf.ThreadPoolExecutor(max_workers=3) as ex:
         for res in ex.map(one, ids):
             print(json.dumps(res), flush=True)
